@@ -96,6 +96,8 @@ EqLines(q, ch, i) ==
     IF q.fac = "subst" /\ UseSubst(ch)
     THEN << "    " \o Quote(q.desc) \o TText(q.lhs, ch) \o EqSign(ch) \o "($s$" \o "+" \o TText(q.rhs[3], ch) \o ")"
             \o (IF q.hasSteady THEN " !!" \o ch.sp \o TText(q.slhs, ch) \o EqSign(ch) \o TText(q.srhs, ch) ELSE "") \o ";" \o Cmt(ch, i) >>
+    ELSE IF q.fac = "if" /\ ch.fac = "forctx" /\ q.rhs[3][1] = "num"
+    THEN << "    " \o Quote(q.desc) \o TText(q.lhs, ch) \o EqSign(ch) \o "(" \o TText(q.rhs[2], ch) \o "+<cst>);" \o Cmt(ch, i) >>
     ELSE IF q.fac = "if" /\ UseIf(ch)
     THEN << "    " \o Quote(q.desc) \o TText(q.lhs, ch) \o EqSign(ch) \o "(" \o TText(q.rhs[2], ch) \o "+",
             "        !if flag !then " \o TText(IF q.rhs[3] = N(2) THEN N(1) ELSE q.rhs[3], ch) \o " !else " \o (IF q.rhs[3] = N(2) THEN "2" ELSE "7") \o " !end );" >>
